@@ -199,3 +199,18 @@ def cases_deep(t, limit=512):
             continue
         res.append((conds, leaf))
     return res
+
+
+def nondelivering(conds, kids=None):
+    """True if the conditions are contradictory with `every (input) child's last() is Some`."""
+    assign = {}
+    for c in conds:
+        if not isinstance(c, tuple):
+            continue
+        for x in subterms(c):
+            if x[0] == 'is_some' and x[1][0] == 'childlast' and (kids is None or x[1][1] in kids):
+                assign[x] = True
+    for c in conds:
+        if isinstance(c, tuple) and c and c[0] != 'inloop' and eval3(c, assign) is False:
+            return True
+    return False
